@@ -153,6 +153,8 @@ def directed(tier, base_seed):
         for k in range(2, kmax + 1):
             seed = 900000 + base_seed * 1000 + wi * 10 + k
             base = make_spec(seed, random.Random(seed), k=k, mode='order', N=1, v=0)
+            # (the enumeration of completion orders is for children that all start)
+            base['plan'] = [e for e in base['plan'] if e['site'] != 'channel']
             for perm in itertools.permutations(range(k)):
                 for N in range(1, k + 2):
                     for v in (0, 2):
@@ -191,6 +193,9 @@ def run(spec, ctx):
     opt = spec['opt']
     N = opt.get('j') or 1
     base_opt = {k: v for k, v in opt.items() if k != 'j'}
+    if spec['sched'].get('strict') and any(e.get('a') == 'spawn_fail' for e in spec['plan']):
+        # (a strict completion order waits for every child: not with a failed spawn)
+        spec = dict(spec, sched={k: v for k, v in spec['sched'].items() if k != 'strict'})
     if spec['sched'].get('barrier'):
         # (a minimised or hand-written spec may ask for more children at the barrier than the
         # world has layers: that barrier could never open)
